@@ -382,19 +382,6 @@ func (p *Prog) distOrigins(fn *ssa.Function, v ssa.Value, depth int) []originVer
 // sortedBefore: the slice value `list` was passed to the descending sort on every path to `at`,
 // with no append to it afterwards.
 func (p *Prog) sortedBefore(at ssa.Instruction, fn *ssa.Function, list ssa.Value) bool {
-	// through a parameter: check the callers
-	if par, ok := stripChangeType(list).(*ssa.Parameter); ok {
-		sites := p.CallSites(fn)
-		if len(sites) == 0 {
-			return false
-		}
-		for _, cs := range sites {
-			if !p.sortedBefore(cs, cs.Parent(), cs.Common().Args[paramIndex(fn, par)]) {
-				return false
-			}
-		}
-		return true
-	}
 	if p.isFieldLoad(list, "priorities") || p.isFieldLoad(list, "uncrowded") || p.isFieldLoad(list, "useful") {
 		return true // D2 field rules
 	}
@@ -408,6 +395,19 @@ func (p *Prog) sortedBefore(at ssa.Instruction, fn *ssa.Function, list ssa.Value
 				return true
 			}
 		}
+	}
+	// through a parameter: check the callers
+	if par, ok := stripChangeType(list).(*ssa.Parameter); ok {
+		sites := p.CallSites(fn)
+		if len(sites) == 0 {
+			return false
+		}
+		for _, cs := range sites {
+			if !p.sortedBefore(cs, cs.Parent(), cs.Common().Args[paramIndex(fn, par)]) {
+				return false
+			}
+		}
+		return true
 	}
 	return false
 }
